@@ -1,6 +1,9 @@
 package main
 
 import (
+	"fmt"
+	"os"
+	"runtime/debug"
 	"strings"
 
 	"golang.org/x/tools/go/ssa"
@@ -70,24 +73,26 @@ func init() {
 		Run: func(w *World, r *Report) {
 			v2 := w.Pkg(pathV2)
 			pf := newPatchFamily(w, v2, "v2")
-			ruleFWD(w, r, pf, []string{"pathAhead", "oldValues", "newValues", "strategy"})
+			safely(r, "ruleFWD", func() { ruleFWD(w, r, pf, []string{"pathAhead", "oldValues", "newValues", "strategy"}) })
 			ruleOptFwd(w, r, v2, "v2", "Option", func(fn *ssa.Function) bool { return patchSide(fn) || equalsSide(fn) || diffSide(fn) }, nil)
-			rulePathFresh(w, r, v2, "v2")
-			ruleKinds(w, r, v2)
-			ruleProv(w, r, v2, "v2", v2Prov)
+			safely(r, "rulePathFresh", func() { rulePathFresh(w, r, v2, "v2") })
+			safely(r, "ruleKinds", func() { ruleKinds(w, r, v2) })
+			safely(r, "ruleProv", func() { ruleProv(w, r, v2, "v2", v2Prov) })
 			nt := newNodeTypes(w, v2, "v2")
-			ruleHashMove(w, r, nt)
-			ruleHashCover(w, r, nt)
-			ruleDeleteVoid(w, r, pf)
-			ruleValuesFresh(w, r, v2, "v2", "Before", "Remove", "Add", "After")
-			ruleIdentProv(w, r, v2, "v2")
-			ruleKeyBind(w, r, pf)
-			ruleSearchAll(w, r, pf, setModePatch)
-			ruleChildResult(w, r, pf)
-			ruleHashDom(w, r, nt, map[string]bool{"jsonString": true, "jsonNumber": true, "jsonBool": true, "jsonNull": true, "jsonList": true, "jsonObject": true})
-			ruleHashInjective(w, r, nt)
-			ruleArrayDispatch(w, r, v2, "v2", "diff", "patch")
-			ruleObjRecurse(w, r, v2, "v2")
+			safely(r, "ruleHashMove", func() { ruleHashMove(w, r, nt) })
+			safely(r, "ruleHashCover", func() { ruleHashCover(w, r, nt) })
+			safely(r, "ruleDeleteVoid", func() { ruleDeleteVoid(w, r, pf) })
+			safely(r, "ruleValuesFresh", func() { ruleValuesFresh(w, r, v2, "v2", "Before", "Remove", "Add", "After") })
+			safely(r, "ruleIdentProv", func() { ruleIdentProv(w, r, v2, "v2") })
+			safely(r, "ruleKeyBind", func() { ruleKeyBind(w, r, pf) })
+			safely(r, "ruleSearchAll", func() { ruleSearchAll(w, r, pf, setModePatch) })
+			safely(r, "ruleChildResult", func() { ruleChildResult(w, r, pf) })
+			safely(r, "ruleHashDom", func() {
+				ruleHashDom(w, r, nt, map[string]bool{"jsonString": true, "jsonNumber": true, "jsonBool": true, "jsonNull": true, "jsonList": true, "jsonObject": true})
+			})
+			safely(r, "ruleHashInjective", func() { ruleHashInjective(w, r, nt) })
+			safely(r, "ruleArrayDispatch", func() { ruleArrayDispatch(w, r, v2, "v2", "diff", "patch") })
+			safely(r, "ruleObjRecurse", func() { ruleObjRecurse(w, r, v2, "v2") })
 			r.Floor("R-PATHFRESH", 15)
 			r.Floor("R-KINDS", 5)
 			r.Floor("R-FWD", 50)
@@ -101,24 +106,26 @@ func init() {
 		Run: func(w *World, r *Report) {
 			v2 := w.Pkg(pathV2)
 			pf := newPatchFamily(w, v2, "v2")
-			ruleFWD(w, r, pf, []string{"pathAhead", "before", "oldValues", "newValues", "after", "strategy"})
-			rulePatchResult(w, r, pf, listModePatch)
-			ruleExpect(w, r, pf, listModePatch)
-			ruleDescend(w, r, pf)
-			ruleNotIgnored(w, r, pf, listModePatch)
-			ruleCreateOnlyMerge(w, r, pf, nil)
+			safely(r, "ruleFWD", func() {
+				ruleFWD(w, r, pf, []string{"pathAhead", "before", "oldValues", "newValues", "after", "strategy"})
+			})
+			safely(r, "rulePatchResult", func() { rulePatchResult(w, r, pf, listModePatch) })
+			safely(r, "ruleExpect", func() { ruleExpect(w, r, pf, listModePatch) })
+			safely(r, "ruleDescend", func() { ruleDescend(w, r, pf) })
+			safely(r, "ruleNotIgnored", func() { ruleNotIgnored(w, r, pf, listModePatch) })
+			safely(r, "ruleCreateOnlyMerge", func() { ruleCreateOnlyMerge(w, r, pf, nil) })
 			{
 				// exactness of Equals: strict checks compare with it
 				ntq := newNodeTypes(w, v2, "v2")
-				ruleTolerance(w, r, ntq)
-				ruleNodeCompare(w, r, ntq)
-				ruleTypeGuard(w, r, ntq)
+				safely(r, "ruleTolerance", func() { ruleTolerance(w, r, ntq) })
+				safely(r, "ruleNodeCompare", func() { ruleNodeCompare(w, r, ntq) })
+				safely(r, "ruleTypeGuard", func() { ruleTypeGuard(w, r, ntq) })
 			}
-			ruleKinds(w, r, v2)
-			ruleCtxPos(w, r, pf)
-			ruleChildResult(w, r, pf)
-			ruleArrayDispatch(w, r, v2, "v2", "patch")
-			ruleEqSize(w, r, newNodeTypes(w, v2, "v2"))
+			safely(r, "ruleKinds", func() { ruleKinds(w, r, v2) })
+			safely(r, "ruleCtxPos", func() { ruleCtxPos(w, r, pf) })
+			safely(r, "ruleChildResult", func() { ruleChildResult(w, r, pf) })
+			safely(r, "ruleArrayDispatch", func() { ruleArrayDispatch(w, r, v2, "v2", "patch") })
+			safely(r, "ruleEqSize", func() { ruleEqSize(w, r, newNodeTypes(w, v2, "v2")) })
 			r.Floor("R-EXPECT", 12)
 			r.Floor("R-FWD", 80)
 			r.Floor("R-PATCHRESULT", 10)
@@ -131,19 +138,19 @@ func init() {
 		Run: func(w *World, r *Report) {
 			v2 := w.Pkg(pathV2)
 			nt := newNodeTypes(w, v2, "v2")
-			ruleTypeGuard(w, r, nt)
-			ruleHashDom(w, r, nt, nil)
-			ruleHashCover(w, r, nt)
-			ruleHashMove(w, r, nt)
-			ruleIdentUse(w, r, v2, "v2")
-			ruleDispatchTable(w, r, v2)
-			ruleEqSize(w, r, nt)
-			ruleHashEq(w, r, nt)
-			ruleNodeCompare(w, r, nt)
-			ruleHashInjective(w, r, nt)
-			ruleNoSharedScratch(w, r, v2, "v2")
-			ruleTolerance(w, r, nt)
-			ruleOptFwd(w, r, v2, "v2", "Option", equalsSide, nil)
+			safely(r, "ruleTypeGuard", func() { ruleTypeGuard(w, r, nt) })
+			safely(r, "ruleHashDom", func() { ruleHashDom(w, r, nt, nil) })
+			safely(r, "ruleHashCover", func() { ruleHashCover(w, r, nt) })
+			safely(r, "ruleHashMove", func() { ruleHashMove(w, r, nt) })
+			safely(r, "ruleIdentUse", func() { ruleIdentUse(w, r, v2, "v2") })
+			safely(r, "ruleDispatchTable", func() { ruleDispatchTable(w, r, v2) })
+			safely(r, "ruleEqSize", func() { ruleEqSize(w, r, nt) })
+			safely(r, "ruleHashEq", func() { ruleHashEq(w, r, nt) })
+			safely(r, "ruleNodeCompare", func() { ruleNodeCompare(w, r, nt) })
+			safely(r, "ruleHashInjective", func() { ruleHashInjective(w, r, nt) })
+			safely(r, "ruleNoSharedScratch", func() { ruleNoSharedScratch(w, r, v2, "v2") })
+			safely(r, "ruleTolerance", func() { ruleTolerance(w, r, nt) })
+			safely(r, "ruleOptFwd", func() { ruleOptFwd(w, r, v2, "v2", "Option", equalsSide, nil) })
 			r.Floor("R-TYPEGUARD", 10)
 			r.Floor("R-HASHDOM", 10)
 			r.Floor("R-OPTFWD", 15)
@@ -156,10 +163,10 @@ func init() {
 		Run: func(w *World, r *Report) {
 			v2 := w.Pkg(pathV2)
 			pf := newPatchFamily(w, v2, "v2")
-			rulePure(w, r, v2, pf)
-			ruleMapOrder(w, r, v2, "v2")
-			ruleNoSharedScratch(w, r, v2, "v2")
-			ruleNoNondet(w, r, v2)
+			safely(r, "rulePure", func() { rulePure(w, r, v2, pf) })
+			safely(r, "ruleMapOrder", func() { ruleMapOrder(w, r, v2, "v2") })
+			safely(r, "ruleNoSharedScratch", func() { ruleNoSharedScratch(w, r, v2, "v2") })
+			safely(r, "ruleNoNondet", func() { ruleNoNondet(w, r, v2) })
 			r.Floor("R-PURE", 45)
 			r.Floor("R-MAPORDER", 15)
 		}})
@@ -171,10 +178,10 @@ func init() {
 		NotDecided:  "Diff/diffRest and the renderers (their index safety rests on cursor invariants), stack or memory exhaustion, panics inside yaml.v2/encoding/json/jsonpointer, nil JsonNodes injected through the Go API.",
 		Assumptions: append([]string{"the compiler's bounds-check elimination is semantics-preserving (a check it removed cannot fail)", "maps held by jsonObject values are non-nil (constructor invariant)"}, commonAssumptions...),
 		Run: func(w *World, r *Report) {
-			rulePanic(w, r, w.Pkg(pathV2))
-			ruleErrPropagate(w, r, w.Pkg(pathV2), "v2", nil)
-			ruleRawArg(w, r, w.Pkg(pathV2))
-			runCLI(w, r, "nopanic", "exit")
+			safely(r, "rulePanic", func() { rulePanic(w, r, w.Pkg(pathV2)) })
+			safely(r, "ruleErrPropagate", func() { ruleErrPropagate(w, r, w.Pkg(pathV2), "v2", nil) })
+			safely(r, "ruleRawArg", func() { ruleRawArg(w, r, w.Pkg(pathV2)) })
+			safely(r, "runCLI", func() { runCLI(w, r, "nopanic", "exit") })
 			r.Floor("R-PANIC", 150)
 			r.Floor("R-CLI/E3", 40)
 		}})
@@ -219,15 +226,15 @@ func runCLI(w *World, r *Report, parts ...string) {
 			c.ruleNoPanic(r)
 		}
 		if has("optfwd") {
-			ruleOptFwdFrom(w, r, c.pkg, w.Pkg(pathV2), "v2", "Option", nil, nil)
+			safely(r, "ruleOptFwdFrom", func() { ruleOptFwdFrom(w, r, c.pkg, w.Pkg(pathV2), "v2", "Option", nil, nil) })
 			if c.tag == "top" {
-				ruleOptFwdFrom(w, r, c.pkg, w.Pkg(pathLib), "lib", "Metadata", nil, nil)
+				safely(r, "ruleOptFwdFrom", func() { ruleOptFwdFrom(w, r, c.pkg, w.Pkg(pathLib), "lib", "Metadata", nil, nil) })
 			}
 		}
 	}
 	if has("havediff") {
-		ruleSentinels(w, r, w.Pkg(pathV2), "v2")
-		ruleSentinels(w, r, w.Pkg(pathLib), "lib")
+		safely(r, "ruleSentinels", func() { ruleSentinels(w, r, w.Pkg(pathV2), "v2") })
+		safely(r, "ruleSentinels", func() { ruleSentinels(w, r, w.Pkg(pathLib), "lib") })
 	}
 }
 
@@ -237,7 +244,7 @@ func init() {
 		NotDecided:  "That `jd -p` of the output reproduces b (that is C01/C02 behaviour), YAML content fidelity, the GitHub-action wrapper and the git diff driver protocol (exempt by name).",
 		Assumptions: commonAssumptions,
 		Run: func(w *World, r *Report) {
-			runCLI(w, r, "exit", "havediff", "output", "flags", "inputs", "modes", "plumbing", "optfwd")
+			safely(r, "runCLI", func() { runCLI(w, r, "exit", "havediff", "output", "flags", "inputs", "modes", "plumbing", "optfwd") })
 			r.Floor("R-CLI/E", 30)
 			r.Floor("R-CLI/E3", 40)
 			r.Floor("R-CLI/O", 18)
@@ -253,19 +260,21 @@ func init() {
 		Run: func(w *World, r *Report) {
 			v2 := w.Pkg(pathV2)
 			nt := newNodeTypes(w, v2, "v2")
-			ruleOptFwd(w, r, v2, "v2", "Option", diffSide, nil)
-			ruleNodeCompare(w, r, nt)
-			ruleHashInjective(w, r, nt)
-			ruleCongruence(w, r, nt)
-			ruleHashMove(w, r, nt)
-			ruleHashCover(w, r, nt)
-			ruleEqSize(w, r, nt)
-			ruleHashEq(w, r, nt)
-			ruleIdentUse(w, r, v2, "v2")
-			ruleObjRecurse(w, r, v2, "v2")
-			ruleNoEmpty(w, r, v2, "v2", "Remove", "Add")
-			ruleHashDom(w, r, nt, map[string]bool{"jsonString": true, "jsonNumber": true, "jsonBool": true, "jsonNull": true, "jsonList": true, "jsonObject": true})
-			runCLI(w, r, "exit", "havediff", "optfwd")
+			safely(r, "ruleOptFwd", func() { ruleOptFwd(w, r, v2, "v2", "Option", diffSide, nil) })
+			safely(r, "ruleNodeCompare", func() { ruleNodeCompare(w, r, nt) })
+			safely(r, "ruleHashInjective", func() { ruleHashInjective(w, r, nt) })
+			safely(r, "ruleCongruence", func() { ruleCongruence(w, r, nt) })
+			safely(r, "ruleHashMove", func() { ruleHashMove(w, r, nt) })
+			safely(r, "ruleHashCover", func() { ruleHashCover(w, r, nt) })
+			safely(r, "ruleEqSize", func() { ruleEqSize(w, r, nt) })
+			safely(r, "ruleHashEq", func() { ruleHashEq(w, r, nt) })
+			safely(r, "ruleIdentUse", func() { ruleIdentUse(w, r, v2, "v2") })
+			safely(r, "ruleObjRecurse", func() { ruleObjRecurse(w, r, v2, "v2") })
+			safely(r, "ruleNoEmpty", func() { ruleNoEmpty(w, r, v2, "v2", "Remove", "Add") })
+			safely(r, "ruleHashDom", func() {
+				ruleHashDom(w, r, nt, map[string]bool{"jsonString": true, "jsonNumber": true, "jsonBool": true, "jsonNull": true, "jsonList": true, "jsonObject": true})
+			})
+			safely(r, "runCLI", func() { runCLI(w, r, "exit", "havediff", "optfwd") })
 			r.Floor("R-OPTFWD", 40)
 		}})
 }
@@ -278,21 +287,23 @@ func init() {
 		Run: func(w *World, r *Report) {
 			v2 := w.Pkg(pathV2)
 			pf := newPatchFamily(w, v2, "v2")
-			ruleExpect(w, r, pf, setModePatch)
-			rulePatchResult(w, r, pf, setModePatch)
-			ruleFWD(w, r, pf, []string{"pathAhead", "before", "oldValues", "newValues", "after", "strategy"})
+			safely(r, "ruleExpect", func() { ruleExpect(w, r, pf, setModePatch) })
+			safely(r, "rulePatchResult", func() { rulePatchResult(w, r, pf, setModePatch) })
+			safely(r, "ruleFWD", func() {
+				ruleFWD(w, r, pf, []string{"pathAhead", "before", "oldValues", "newValues", "after", "strategy"})
+			})
 			ruleOptFwd(w, r, v2, "v2", "Option", func(fn *ssa.Function) bool {
 				return patchSide(fn) && !listModePatch(fn) || canonFnName(fn) == "pathIdent" || canonFnName(fn) == "ident"
 			}, nil)
-			ruleKinds(w, r, v2)
-			ruleIdentUse(w, r, v2, "v2")
-			ruleIdentProv(w, r, v2, "v2")
-			ruleSearchAll(w, r, pf, setModePatch)
-			ruleKeyBind(w, r, pf)
-			ruleArrayDispatch(w, r, v2, "v2", "patch")
-			ruleChildResult(w, r, pf)
-			ruleSetTarget(w, r, pf)
-			ruleNotIgnored(w, r, pf, setModePatch)
+			safely(r, "ruleKinds", func() { ruleKinds(w, r, v2) })
+			safely(r, "ruleIdentUse", func() { ruleIdentUse(w, r, v2, "v2") })
+			safely(r, "ruleIdentProv", func() { ruleIdentProv(w, r, v2, "v2") })
+			safely(r, "ruleSearchAll", func() { ruleSearchAll(w, r, pf, setModePatch) })
+			safely(r, "ruleKeyBind", func() { ruleKeyBind(w, r, pf) })
+			safely(r, "ruleArrayDispatch", func() { ruleArrayDispatch(w, r, v2, "v2", "patch") })
+			safely(r, "ruleChildResult", func() { ruleChildResult(w, r, pf) })
+			safely(r, "ruleSetTarget", func() { ruleSetTarget(w, r, pf) })
+			safely(r, "ruleNotIgnored", func() { ruleNotIgnored(w, r, pf, setModePatch) })
 			r.Floor("R-EXPECT", 6)
 		}})
 }
@@ -306,22 +317,22 @@ func init() {
 		Assumptions: commonAssumptions,
 		Run: func(w *World, r *Report) {
 			v2 := w.Pkg(pathV2)
-			ruleNoEmpty(w, r, v2, "v2", "Remove", "Add")
-			ruleOptFwd(w, r, v2, "v2", "Option", diffSide, nil)
-			ruleSetMember(w, r, v2, "v2", "Remove", "Add")
-			ruleBagCount(w, r, v2, "v2", "Remove", "Add")
-			ruleWholeContainer(w, r, v2, "v2", "Add")
-			ruleWholeObject(w, r, v2, "v2", "Add")
+			safely(r, "ruleNoEmpty", func() { ruleNoEmpty(w, r, v2, "v2", "Remove", "Add") })
+			safely(r, "ruleOptFwd", func() { ruleOptFwd(w, r, v2, "v2", "Option", diffSide, nil) })
+			safely(r, "ruleSetMember", func() { ruleSetMember(w, r, v2, "v2", "Remove", "Add") })
+			safely(r, "ruleBagCount", func() { ruleBagCount(w, r, v2, "v2", "Remove", "Add") })
+			safely(r, "ruleWholeContainer", func() { ruleWholeContainer(w, r, v2, "v2", "Add") })
+			safely(r, "ruleWholeObject", func() { ruleWholeObject(w, r, v2, "v2", "Add") })
 			r.Only(func(o Ob) bool { return !strings.Contains(o.Key, "no-key-passed-over") }, func(sub *Report) { ruleObjRecurse(w, sub, v2, "v2") })
 			// a common subsequence that is not the longest makes the walk restate equal elements (- x / + x)
 			r.Only(func(o Ob) bool {
 				return o.Rule == "R-LCSDEP" && !strings.Contains(o.Key, "kinds-only")
 			}, func(sub *Report) { ruleListDiff(w, sub, v2) })
 			nt := newNodeTypes(w, v2, "v2")
-			ruleHashMove(w, r, nt)
-			ruleHashCover(w, r, nt)
-			ruleProv(w, r, v2, "v2", v2Prov)
-			rulePathFresh(w, r, v2, "v2")
+			safely(r, "ruleHashMove", func() { ruleHashMove(w, r, nt) })
+			safely(r, "ruleHashCover", func() { ruleHashCover(w, r, nt) })
+			safely(r, "ruleProv", func() { ruleProv(w, r, v2, "v2", v2Prov) })
+			safely(r, "rulePathFresh", func() { rulePathFresh(w, r, v2, "v2") })
 			r.Floor("R-PROV", 20)
 			r.Floor("R-PATHFRESH", 15)
 		}})
@@ -334,16 +345,16 @@ func init() {
 		Assumptions: commonAssumptions,
 		Run: func(w *World, r *Report) {
 			v2 := w.Pkg(pathV2)
-			ruleAutomaton(w, r, v2)
-			rulePathFresh(w, r, v2, "v2")
-			rulePathTab(w, r, v2)
-			ruleJSONCodec(w, r, v2, "v2")
-			ruleRenderPayload(w, r, v2, "v2")
+			safely(r, "ruleAutomaton", func() { ruleAutomaton(w, r, v2) })
+			safely(r, "rulePathFresh", func() { rulePathFresh(w, r, v2, "v2") })
+			safely(r, "rulePathTab", func() { rulePathTab(w, r, v2) })
+			safely(r, "ruleJSONCodec", func() { ruleJSONCodec(w, r, v2, "v2") })
+			safely(r, "ruleRenderPayload", func() { ruleRenderPayload(w, r, v2, "v2") })
 			// what the command prints is the library's rendering, byte for byte (no post-processing in package main)
 			r.Only(func(o Ob) bool { return o.Rule == "R-CLI/O" && strings.Contains(o.Key, "is-library-rendering") }, func(sub *Report) { runCLI(w, sub, "output") })
-			ruleRawTypes(w, r, v2)
-			ruleDiffReaders(w, r, v2, "v2", "Diff")
-			ruleScanErr(w, r, v2, "v2")
+			safely(r, "ruleRawTypes", func() { ruleRawTypes(w, r, v2) })
+			safely(r, "ruleDiffReaders", func() { ruleDiffReaders(w, r, v2, "v2", "Diff") })
+			safely(r, "ruleScanErr", func() { ruleScanErr(w, r, v2, "v2") })
 			r.Floor("R-AUTOMATON", 50)
 			r.Floor("R-PATHTAB", 6)
 		}})
@@ -356,18 +367,18 @@ func init() {
 		Assumptions: commonAssumptions,
 		Run: func(w *World, r *Report) {
 			v2 := w.Pkg(pathV2)
-			ruleYamlTypes(w, r, v2)
-			ruleCodecRoutes(w, r, v2, "v2")
-			ruleRenderIdentity(w, r, v2)
-			ruleRawArg(w, r, v2)
-			ruleRawTypes(w, r, v2)
-			ruleJSONCodec(w, r, v2, "v2")
+			safely(r, "ruleYamlTypes", func() { ruleYamlTypes(w, r, v2) })
+			safely(r, "ruleCodecRoutes", func() { ruleCodecRoutes(w, r, v2, "v2") })
+			safely(r, "ruleRenderIdentity", func() { ruleRenderIdentity(w, r, v2) })
+			safely(r, "ruleRawArg", func() { ruleRawArg(w, r, v2) })
+			safely(r, "ruleRawTypes", func() { ruleRawTypes(w, r, v2) })
+			safely(r, "ruleJSONCodec", func() { ruleJSONCodec(w, r, v2, "v2") })
 			// the yaml2json / json2yaml translations of the command are the library's readers and renderers, nothing else
 			r.Only(func(o Ob) bool {
 				return (o.Rule == "R-CLI/O" && strings.Contains(o.Key, "printTranslation") && strings.Contains(o.Key, "is-library-rendering")) ||
 					(o.Rule == "R-CLI/M" && (strings.Contains(o.Key, "json2yaml") || strings.Contains(o.Key, "yaml2json")))
 			}, func(sub *Report) { runCLI(w, sub, "output", "modes") })
-			ruleRawInput(w, r, v2, "v2")
+			safely(r, "ruleRawInput", func() { ruleRawInput(w, r, v2, "v2") })
 			r.Floor("R-YAMLTYPES", 12)
 			r.Floor("R-CODEC", 20)
 		}})
@@ -379,16 +390,18 @@ func init() {
 		NotDecided:  "Equivalence with an RFC 6902 evaluator: op order across hunks, the index arithmetic of the context tests.",
 		Assumptions: commonAssumptions,
 		Run: func(w *World, r *Report) {
-			ruleCtxIndex(w, r, w.Pkg(pathV2))
+			safely(r, "ruleCtxIndex", func() { ruleCtxIndex(w, r, w.Pkg(pathV2)) })
 			v2 := w.Pkg(pathV2)
-			rulePtr(w, r, v2, "v2")
-			rulePair(w, r, v2, "v2")
-			ruleRevAdd(w, r, v2, "v2", "Add")
+			safely(r, "rulePtr", func() { rulePtr(w, r, v2, "v2") })
+			safely(r, "rulePair", func() { rulePair(w, r, v2, "v2") })
+			safely(r, "ruleRevAdd", func() { ruleRevAdd(w, r, v2, "v2", "Add") })
 			// what the command prints is the library's rendering, byte for byte (no post-processing in package main)
 			r.Only(func(o Ob) bool { return o.Rule == "R-CLI/O" && strings.Contains(o.Key, "is-library-rendering") }, func(sub *Report) { runCLI(w, sub, "output") })
-			ruleRawTypes(w, r, v2)
-			rulePtrAgree(w, r, v2)
-			rulePureEntries(w, r, v2, newPatchFamily(w, v2, "v2"), map[string]bool{"Diff.RenderPatch": true})
+			safely(r, "ruleRawTypes", func() { ruleRawTypes(w, r, v2) })
+			safely(r, "rulePtrAgree", func() { rulePtrAgree(w, r, v2) })
+			safely(r, "rulePureEntries", func() {
+				rulePureEntries(w, r, v2, newPatchFamily(w, v2, "v2"), map[string]bool{"Diff.RenderPatch": true})
+			})
 			r.Floor("R-PTR", 6)
 		}})
 	register(&PropSpec{ID: "C10",
@@ -396,33 +409,33 @@ func init() {
 		NotDecided:  "The full index case analysis of the context inference (which of up to three ops are context for every op sequence).",
 		Assumptions: commonAssumptions,
 		Run: func(w *World, r *Report) {
-			ruleCtxIndex(w, r, w.Pkg(pathV2))
+			safely(r, "ruleCtxIndex", func() { ruleCtxIndex(w, r, w.Pkg(pathV2)) })
 			v2 := w.Pkg(pathV2)
 			pf := newPatchFamily(w, v2, "v2")
-			ruleOpSubset(w, r, v2)
+			safely(r, "ruleOpSubset", func() { ruleOpSubset(w, r, v2) })
 			{
 				// exactness of Equals: strict checks compare with it
 				ntq := newNodeTypes(w, v2, "v2")
-				ruleTolerance(w, r, ntq)
-				ruleNodeCompare(w, r, ntq)
-				ruleTypeGuard(w, r, ntq)
+				safely(r, "ruleTolerance", func() { ruleTolerance(w, r, ntq) })
+				safely(r, "ruleNodeCompare", func() { ruleNodeCompare(w, r, ntq) })
+				safely(r, "ruleTypeGuard", func() { ruleTypeGuard(w, r, ntq) })
 			}
-			ruleEqSize(w, r, newNodeTypes(w, v2, "v2"))
-			ruleCreateOnlyMerge(w, r, pf, nil)
-			ruleDescend(w, r, pf)
-			ruleNotIgnored(w, r, pf, listModePatch)
-			ruleKinds(w, r, v2)
-			ruleCtxPos(w, r, pf)
-			ruleDiffReaders(w, r, v2, "v2", "Patch")
-			rulePatchSeq(w, r, v2)
-			ruleParent(w, r, v2)
-			rulePtrRead(w, r, v2)
-			rulePtrAgree(w, r, v2)
-			rulePtr(w, r, v2, "v2")
-			rulePrepend(w, r, v2)
-			ruleFWD(w, r, pf, []string{"before", "after"})
-			ruleExpect(w, r, pf, listModePatch)
-			rulePureEntries(w, r, v2, pf, map[string]bool{"Diff.RenderPatch": true})
+			safely(r, "ruleEqSize", func() { ruleEqSize(w, r, newNodeTypes(w, v2, "v2")) })
+			safely(r, "ruleCreateOnlyMerge", func() { ruleCreateOnlyMerge(w, r, pf, nil) })
+			safely(r, "ruleDescend", func() { ruleDescend(w, r, pf) })
+			safely(r, "ruleNotIgnored", func() { ruleNotIgnored(w, r, pf, listModePatch) })
+			safely(r, "ruleKinds", func() { ruleKinds(w, r, v2) })
+			safely(r, "ruleCtxPos", func() { ruleCtxPos(w, r, pf) })
+			safely(r, "ruleDiffReaders", func() { ruleDiffReaders(w, r, v2, "v2", "Patch") })
+			safely(r, "rulePatchSeq", func() { rulePatchSeq(w, r, v2) })
+			safely(r, "ruleParent", func() { ruleParent(w, r, v2) })
+			safely(r, "rulePtrRead", func() { rulePtrRead(w, r, v2) })
+			safely(r, "rulePtrAgree", func() { rulePtrAgree(w, r, v2) })
+			safely(r, "rulePtr", func() { rulePtr(w, r, v2, "v2") })
+			safely(r, "rulePrepend", func() { rulePrepend(w, r, v2) })
+			safely(r, "ruleFWD", func() { ruleFWD(w, r, pf, []string{"before", "after"}) })
+			safely(r, "ruleExpect", func() { ruleExpect(w, r, pf, listModePatch) })
+			safely(r, "rulePureEntries", func() { rulePureEntries(w, r, v2, pf, map[string]bool{"Diff.RenderPatch": true}) })
 			r.Floor("R-FWD", 25)
 		}})
 	register(&PropSpec{ID: "C11",
@@ -431,24 +444,24 @@ func init() {
 		Assumptions: commonAssumptions,
 		Run: func(w *World, r *Report) {
 			v2 := w.Pkg(pathV2)
-			ruleMergeHunkDiff(w, r, v2)
-			ruleVoidArg(w, r, v2)
-			ruleHashEq(w, r, newNodeTypes(w, v2, "v2"))
-			ruleMergeRender(w, r, v2)
-			rulePathFresh(w, r, v2, "v2")
-			ruleDeleteVoid(w, r, newPatchFamily(w, v2, "v2"))
-			ruleWholeObject(w, r, v2, "v2", "Add")
+			safely(r, "ruleMergeHunkDiff", func() { ruleMergeHunkDiff(w, r, v2) })
+			safely(r, "ruleVoidArg", func() { ruleVoidArg(w, r, v2) })
+			safely(r, "ruleHashEq", func() { ruleHashEq(w, r, newNodeTypes(w, v2, "v2")) })
+			safely(r, "ruleMergeRender", func() { ruleMergeRender(w, r, v2) })
+			safely(r, "rulePathFresh", func() { rulePathFresh(w, r, v2, "v2") })
+			safely(r, "ruleDeleteVoid", func() { ruleDeleteVoid(w, r, newPatchFamily(w, v2, "v2")) })
+			safely(r, "ruleWholeObject", func() { ruleWholeObject(w, r, v2, "v2", "Add") })
 			{
 				nt := newNodeTypes(w, v2, "v2")
-				ruleHashMove(w, r, nt)
-				ruleHashInjective(w, r, nt)
-				ruleNodeCompare(w, r, nt)
-				ruleEqSize(w, r, nt)
+				safely(r, "ruleHashMove", func() { ruleHashMove(w, r, nt) })
+				safely(r, "ruleHashInjective", func() { ruleHashInjective(w, r, nt) })
+				safely(r, "ruleNodeCompare", func() { ruleNodeCompare(w, r, nt) })
+				safely(r, "ruleEqSize", func() { ruleEqSize(w, r, nt) })
 			}
 			// what the command prints is the library's rendering, byte for byte (no post-processing in package main)
 			r.Only(func(o Ob) bool { return o.Rule == "R-CLI/O" && strings.Contains(o.Key, "is-library-rendering") }, func(sub *Report) { runCLI(w, sub, "output") })
-			ruleRawTypes(w, r, v2)
-			ruleObjRecurse(w, r, v2, "v2")
+			safely(r, "ruleRawTypes", func() { ruleRawTypes(w, r, v2) })
+			safely(r, "ruleObjRecurse", func() { ruleObjRecurse(w, r, v2, "v2") })
 		}})
 	register(&PropSpec{ID: "C12",
 		Explain:     "Decides structural necessary conditions of reading RFC 7386: (R-MERGEHUNK, reader side) every hunk readMergeInto builds carries Metadata.Merge, a null becomes a void addition (delete), and patchAll selects merge strategy exactly for hunks with the flag (R-FWD driver), so the leaf patch replaces instead of demanding an old value. A fresh empty object enters a hunk only on the edge where the patch object has no members (RFC 7386 merges a non-empty patch object member by member).",
@@ -456,15 +469,15 @@ func init() {
 		Assumptions: commonAssumptions,
 		Run: func(w *World, r *Report) {
 			v2 := w.Pkg(pathV2)
-			ruleDiffReaders(w, r, v2, "v2", "Merge")
-			ruleMergeRead(w, r, v2)
+			safely(r, "ruleDiffReaders", func() { ruleDiffReaders(w, r, v2, "v2", "Merge") })
+			safely(r, "ruleMergeRead", func() { ruleMergeRead(w, r, v2) })
 			pf := newPatchFamily(w, v2, "v2")
-			ruleFWD(w, r, pf, []string{"newValues", "strategy", "pathAhead"})
-			ruleChildResult(w, r, pf)
-			ruleDescend(w, r, pf)
-			ruleNotIgnored(w, r, pf, listModePatch)
-			ruleDeleteVoid(w, r, pf)
-			rulePathFresh(w, r, v2, "v2")
+			safely(r, "ruleFWD", func() { ruleFWD(w, r, pf, []string{"newValues", "strategy", "pathAhead"}) })
+			safely(r, "ruleChildResult", func() { ruleChildResult(w, r, pf) })
+			safely(r, "ruleDescend", func() { ruleDescend(w, r, pf) })
+			safely(r, "ruleNotIgnored", func() { ruleNotIgnored(w, r, pf, listModePatch) })
+			safely(r, "ruleDeleteVoid", func() { ruleDeleteVoid(w, r, pf) })
+			safely(r, "rulePathFresh", func() { rulePathFresh(w, r, v2, "v2") })
 		}})
 }
 
@@ -475,17 +488,19 @@ func init() {
 		Assumptions: commonAssumptions,
 		Run: func(w *World, r *Report) {
 			v2 := w.Pkg(pathV2)
-			ruleListDiff(w, r, v2)
+			safely(r, "ruleListDiff", func() { ruleListDiff(w, r, v2) })
 			{
 				// the LCS runs over element digests: digests that collide across types or ignore part of a value shorten or lengthen the script
 				nt := newNodeTypes(w, v2, "v2")
-				ruleHashDom(w, r, nt, map[string]bool{"jsonString": true, "jsonNumber": true, "jsonBool": true, "jsonNull": true, "jsonList": true, "jsonObject": true})
-				ruleHashCover(w, r, nt)
-				ruleHashMove(w, r, nt)
-				ruleHashInjective(w, r, nt)
+				safely(r, "ruleHashDom", func() {
+					ruleHashDom(w, r, nt, map[string]bool{"jsonString": true, "jsonNumber": true, "jsonBool": true, "jsonNull": true, "jsonList": true, "jsonObject": true})
+				})
+				safely(r, "ruleHashCover", func() { ruleHashCover(w, r, nt) })
+				safely(r, "ruleHashMove", func() { ruleHashMove(w, r, nt) })
+				safely(r, "ruleHashInjective", func() { ruleHashInjective(w, r, nt) })
 			}
-			ruleArrayDispatch(w, r, v2, "v2", "diff")
-			ruleProv(w, r, v2, "v2", map[string]string{"Before": "b", "After": "a"})
+			safely(r, "ruleArrayDispatch", func() { ruleArrayDispatch(w, r, v2, "v2", "diff") })
+			safely(r, "ruleProv", func() { ruleProv(w, r, v2, "v2", map[string]string{"Before": "b", "After": "a"}) })
 		}})
 }
 
@@ -497,21 +512,21 @@ func init() {
 		Run: func(w *World, r *Report) {
 			lib := w.Pkg(pathLib)
 			pf := newPatchFamily(w, lib, "lib")
-			ruleFWD(w, r, pf, []string{"pathAhead", "oldValues", "newValues", "strategy"})
-			ruleOptFwd(w, r, lib, "lib", "Metadata", nil, libOptExempt)
-			ruleProv(w, r, lib, "lib", map[string]string{"OldValues": "a", "NewValues": "b"})
-			ruleNoEmpty(w, r, lib, "lib", "OldValues", "NewValues")
-			rulePathFresh(w, r, lib, "lib")
-			ruleIdentUse(w, r, lib, "lib")
-			ruleObjRecurse(w, r, lib, "lib")
-			ruleDeleteVoid(w, r, pf)
-			ruleNotIgnored(w, r, pf, nil)
-			rulePatchResult(w, r, pf, nil)
-			ruleRawTypesTag(w, r, lib, "lib")
-			ruleDiffReaders(w, r, lib, "lib", "Diff")
-			ruleNoSharedScratch(w, r, lib, "lib")
-			ruleEqSize(w, r, newNodeTypes(w, lib, "lib"))
-			ruleScanErr(w, r, lib, "lib")
+			safely(r, "ruleFWD", func() { ruleFWD(w, r, pf, []string{"pathAhead", "oldValues", "newValues", "strategy"}) })
+			safely(r, "ruleOptFwd", func() { ruleOptFwd(w, r, lib, "lib", "Metadata", nil, libOptExempt) })
+			safely(r, "ruleProv", func() { ruleProv(w, r, lib, "lib", map[string]string{"OldValues": "a", "NewValues": "b"}) })
+			safely(r, "ruleNoEmpty", func() { ruleNoEmpty(w, r, lib, "lib", "OldValues", "NewValues") })
+			safely(r, "rulePathFresh", func() { rulePathFresh(w, r, lib, "lib") })
+			safely(r, "ruleIdentUse", func() { ruleIdentUse(w, r, lib, "lib") })
+			safely(r, "ruleObjRecurse", func() { ruleObjRecurse(w, r, lib, "lib") })
+			safely(r, "ruleDeleteVoid", func() { ruleDeleteVoid(w, r, pf) })
+			safely(r, "ruleNotIgnored", func() { ruleNotIgnored(w, r, pf, nil) })
+			safely(r, "rulePatchResult", func() { rulePatchResult(w, r, pf, nil) })
+			safely(r, "ruleRawTypesTag", func() { ruleRawTypesTag(w, r, lib, "lib") })
+			safely(r, "ruleDiffReaders", func() { ruleDiffReaders(w, r, lib, "lib", "Diff") })
+			safely(r, "ruleNoSharedScratch", func() { ruleNoSharedScratch(w, r, lib, "lib") })
+			safely(r, "ruleEqSize", func() { ruleEqSize(w, r, newNodeTypes(w, lib, "lib")) })
+			safely(r, "ruleScanErr", func() { ruleScanErr(w, r, lib, "lib") })
 			r.Floor("R-FWD(lib)", 60)
 			r.Floor("R-OPTFWD(lib)", 80)
 		}})
@@ -521,14 +536,40 @@ func init() {
 		Assumptions: commonAssumptions,
 		Run: func(w *World, r *Report) {
 			lib := w.Pkg(pathLib)
-			rulePtr(w, r, lib, "lib")
-			rulePair(w, r, lib, "lib")
-			rulePathFresh(w, r, lib, "lib")
-			ruleWholeObject(w, r, lib, "lib", "NewValues")
-			ruleObjRecurse(w, r, lib, "lib")
-			ruleJSONCodec(w, r, lib, "lib")
-			ruleDeleteVoid(w, r, newPatchFamily(w, lib, "lib"))
-			ruleDiffReaders(w, r, lib, "lib", "Patch", "Merge")
-			ruleScanErr(w, r, lib, "lib")
+			safely(r, "rulePtr", func() { rulePtr(w, r, lib, "lib") })
+			safely(r, "rulePair", func() { rulePair(w, r, lib, "lib") })
+			safely(r, "rulePathFresh", func() { rulePathFresh(w, r, lib, "lib") })
+			safely(r, "ruleWholeObject", func() { ruleWholeObject(w, r, lib, "lib", "NewValues") })
+			safely(r, "ruleObjRecurse", func() { ruleObjRecurse(w, r, lib, "lib") })
+			safely(r, "ruleJSONCodec", func() { ruleJSONCodec(w, r, lib, "lib") })
+			safely(r, "ruleDeleteVoid", func() { ruleDeleteVoid(w, r, newPatchFamily(w, lib, "lib")) })
+			safely(r, "ruleDiffReaders", func() { ruleDiffReaders(w, r, lib, "lib", "Patch", "Merge") })
+			safely(r, "ruleScanErr", func() { ruleScanErr(w, r, lib, "lib") })
 		}})
+}
+
+// safely runs one rule; if the rule cannot be evaluated on this tree (an
+// anchor is missing, the rule's own code fails) that rule leaves the property
+// undecided — reported as a non-discharged obligation of R-UNDECIDED naming the
+// rule — and the other rules of the property still run.
+func safely(r *Report, name string, f func()) {
+	defer func() {
+		if e := recover(); e != nil {
+			msg := ""
+			if ie, ok := e.(InfraError); ok {
+				msg = ie.Msg
+			} else {
+				msg = fmt.Sprintf("panic in the checker: %v", e)
+				if os.Getenv("JDLINT_DEBUG") != "" {
+					msg += "\n" + string(debug.Stack())
+				}
+			}
+			key := name + ":" + msg
+			if len(key) > 100 {
+				key = key[:100]
+			}
+			r.Unk("R-UNDECIDED", "checker:"+key, "-", "rule "+name+" could not be evaluated on this tree: "+msg+" — the property is undecided as far as this rule goes, which counts as a violation; the other rules were still evaluated")
+		}
+	}()
+	f()
 }
